@@ -354,10 +354,15 @@ structure Facts where
   sites : List Site
   stripsPort : Bool
   setsHostname : Bool
+  /-- identity of the `ClientSessionCache` the client configs handed to crypto/tls carry (`none`: they carry no
+      cache, or one that is created for that config alone); a cache that outlives the config lets crypto/tls
+      RESUME a session: no certificate exchange, no chain verification against the current RootCAs -/
+  sessionCache : Option Nat := none
 
 def genFacts : Facts :=
   { guardErrNil := SA.Gen.serverAuthGuardErrNil, sites := SA.Gen.isvSites,
-    stripsPort := SA.Gen.startTlsStripsPort, setsHostname := SA.Gen.socketDialSetsHostname }
+    stripsPort := SA.Gen.startTlsStripsPort, setsHostname := SA.Gen.socketDialSetsHostname,
+    sessionCache := if SA.Gen.clientSessionCacheShared then some 0 else none }
 
 /-- the name the client config carries into the handshake for an upstream `host:port` (resolved
     address `resolved`) of kind `k` -/
@@ -411,6 +416,9 @@ structure Attempt where
   resolved : Name
   up : Bool
   so : Opts
+  /-- the server INSTANCE behind the upstream (one listener, one set of session-ticket keys); attempts of a history
+      that reach the same running server carry the same `inst`, a restarted server a new one -/
+  inst : String := ""
   deriving DecidableEq, Repr
 
 /-- server.go: STARTTLS is offered iff the server's config loads and carries a certificate -/
@@ -502,16 +510,94 @@ def alone (X : X509) (F : Facts) (o : Opts) (a : Attempt) : Outcome :=
   let c := (attemptOn F true o a none).1
   ⟨c, sessionWith X F a c⟩
 
-/-- a history of attempts through one manager.  `failover`: the walk of `Upstreams.open`, which
+/-! ### what crypto/tls itself may remember between connections: session tickets
+
+    A Go TLS server issues session tickets by default (one set of ticket keys per `tls.Config`, i.e. per listener for
+    the TLS-socket and https carriers, whose config is built once at start-up; the StartTLS and stdio servers build a
+    config per connection, so their tickets are worthless for the next connection).  A client resumes only when its
+    config carries a `ClientSessionCache` holding a ticket under the same cache key (the ServerName).  A RESUMED
+    handshake exchanges no certificates: the client checks that the remembered server certificate has not expired
+    and names the ServerName (and that the original session was verified, unless InsecureSkipVerify) - NOT that it
+    chains to the RootCAs of the config in force now; the server takes the client certificate of the ORIGINAL
+    session as presented.  The code sets no such cache (regenerated fact SA.Gen.tlsSessionStateSites); the model
+    keeps the ticket store explicit so that the history theorems depend on that. -/
+
+/-- an entry of a client-side session cache -/
+structure Ticket where
+  cache : Nat                    -- the cache object it sits in
+  key : Name                     -- cache key: the ServerName handed to crypto/tls
+  inst : String                  -- the server instance whose ticket keys sealed it
+  peer : String                  -- server certificate of the original session
+  verified : Bool                -- the original session verified the server's chain
+  clientCert : Option String     -- client certificate the server accepted in the original session
+  deriving DecidableEq, Repr
+
+/-- servers whose `tls.Config` (hence ticket keys) lives as long as the listener: socket_server.go, http_server.go -/
+def keepsTickets : Kind → Bool
+  | .socketTls => true
+  | .httpTls => true
+  | _ => false
+
+/-- crypto/tls: may the handshake of attempt `a` (client config `ccfg`, server config `scfg`) be resumed from `t`? -/
+def resumable (X : X509) (F : Facts) (a : Attempt) (ccfg scfg : TlsCfg) (t : Ticket) : Bool :=
+  F.sessionCache == some t.cache && t.inst == a.inst && t.key == effName a.kind a.hostport a.resolved ccfg &&
+    X.validNow t.peer &&
+    (ccfg.insecureSkipVerify || (t.verified && X.matchesName t.key t.peer)) &&
+    (match scfg.clientAuth with
+     | .noClientCert => t.clientCert.isNone
+     | .requireAndVerifyClientCert =>
+       match t.clientCert with
+       | some c => X.validNow c
+       | none => false)
+
+/-- the session of one attempt given the ticket store `ts`, and the store afterwards -/
+def sessionWithT (X : X509) (F : Facts) (a : Attempt) (c : Option TlsCfg) (ts : List Ticket) : Bool × List Ticket :=
+  match F.sessionCache, c with
+  | some id, some ccfg =>
+    if a.up && keepsTickets a.kind then
+      match serverGetTlsConfig F.guardErrNil a.so with
+      | .ok scfg =>
+        if ts.any (resumable X F a ccfg scfg) then (true, ts)
+        else
+          let est := sessionWith X F a c
+          (est,
+            match est, scfg.certs.head? with
+            | true, some peer =>
+              { cache := id, key := effName a.kind a.hostport a.resolved ccfg, inst := a.inst, peer := peer,
+                verified := !ccfg.insecureSkipVerify,
+                clientCert := (match scfg.clientAuth with
+                               | .noClientCert => none
+                               | .requireAndVerifyClientCert => ccfg.certs.head?) } :: ts
+            | _, _ => ts)
+      | _ => (false, ts)
+    else (sessionWith X F a c, ts)
+  | _, _ => (sessionWith X F a c, ts)
+
+/-- one step of a history: the client configuration IN FORCE for this attempt (the options may change between two
+    attempts: a CA file replaced on disk, a reloaded configuration, another configuration object of the process),
+    whether it is made through a configuration object of its own, and the upstream -/
+structure Step where
+  co : Opts
+  newMgr : Bool := false
+  att : Attempt
+  deriving DecidableEq, Repr
+
+/-- a history of attempts made by ONE process.  `failover`: the walk of `Upstreams.open`, which
     stops at the first upstream whose Connect succeeds (the rest are not tried: `none`); otherwise every
-    attempt is made (connect, disconnect, connect again). -/
-def runHist (X : X509) (F : Facts) (fresh : Bool) (o : Opts) (failover : Bool) : List Attempt → Mgr → List (Option Outcome)
-  | [], _ => []
-  | a :: as, m =>
-    let r := attemptOn F fresh o a m
-    let est := sessionWith X F a r.1
-    some ⟨r.1, est⟩ ::
-      (if failover && connectsWith X F a r.1 then as.map (fun _ => none) else runHist X F fresh o failover as r.2)
+    attempt is made (connect, disconnect, connect again).  Threaded through the attempts: the state of the
+    configuration object (`Mgr`) and what crypto/tls remembers (`List Ticket`). -/
+def runHist (X : X509) (F : Facts) (fresh : Bool) (failover : Bool) : List Step → Mgr → List Ticket → List (Option Outcome)
+  | [], _, _ => []
+  | s :: ss, m, ts =>
+    let r := attemptOn F fresh s.co s.att (if s.newMgr then none else m)
+    let e := sessionWithT X F s.att r.1 ts
+    let con := if e.1 && !sessionWith X F s.att r.1 then true else connectsWith X F s.att r.1
+    some ⟨r.1, e.1⟩ ::
+      (if failover && con then ss.map (fun _ => none)
+       else runHist X F fresh failover ss (if s.newMgr then m else r.2) e.2)
+
+/-- a history in which every attempt is made with the same options through the one configuration object -/
+def stepsOf (o : Opts) (as : List Attempt) : List Step := as.map (fun a => { co := o, att := a })
 
 /-! ## reference oracle and certificate table of the harness PKI (driver only) -/
 
@@ -852,24 +938,75 @@ def handleAuthmatrix (toks : List String) : String :=
 
 def splitOn1 (sep : Char) (s : String) : List String := (s.splitOn (String.singleton sep))
 
-def parseAttempt (sreq : Bool) (sca : String) (tok : String) : Option Attempt :=
-  match splitOn1 ',' tok with
-  | [carrier, hostname, scert] => do
-    if !(["pipe", "tcp", "tcp+tls", "stdin+tls", "wss"].contains carrier) then none
-    let (k, noHost) ← parseKind carrier
-    if !(("dead" :: "iponly" :: serverCertClasses).contains scert) then none
-    if !(caTokens.contains sca) then none
-    if noHost != (hostname == "-") then none
-    let (hostPart, special) ← decodeHostTok hostname
-    if special && noHost then none
-    if !special && (carrier == "tcp" || carrier == "tcp+tls" || carrier == "wss") && !(hostname == "localhost" || hostname == "127.0.0.1") then none
-    if !special && carrier == "pipe" && (hostname.isEmpty || hostname.toList.any (fun c => c == ':' || c == '/' || c == '[' || c == ']')) then none
-    let caSrc : Src := caSrcOf sca
-    let up := scert != "dead"
-    let so : Opts := leafSrc (if up then scert else "good") { ca := caSrc, flag := sreq }
-    let hostport : Name := if noHost then [] else stripUserinfo hostPart ++ ":4443".toList
-    pure { kind := k, hostport := hostport, resolved := refResolve hostport, up := up, so := so }
+/-- per-attempt variation of a `tlshist` attempt (4th field, tokens joined by '/'): the client configuration in
+    force for THIS attempt (`c<CA>`, `k<client certificate>`, `i<0|1>`), `r` = the server behind the attempt is started
+    anew for it (taking over the port of the carrier's last server: new listener, new ticket keys), `v12` = the
+    handshake is capped at TLS 1.2 (no effect on the model's outcome) -/
+structure Vari where
+  cca : Option String := none
+  ccert : Option String := none
+  ins : Option Bool := none
+  restart : Bool := false
+  any : Bool := false
+
+def parseVariTok (v : Vari) (tok : String) : Option Vari :=
+  match tok.toList with
+  | ['r'] => some { v with restart := true, any := true }
+  | ['v', '1', '2'] => some { v with any := true }
+  | ['i', '0'] => some { v with ins := some false, any := true }
+  | ['i', '1'] => some { v with ins := some true, any := true }
+  | 'c' :: rest => if caTokens.contains (String.ofList rest) then some { v with cca := some (String.ofList rest), any := true } else none
+  | 'k' :: rest => if clientCertClasses.contains (String.ofList rest) then some { v with ccert := some (String.ofList rest), any := true } else none
   | _ => none
+
+def parseVari (field : String) : Option Vari :=
+  (splitOn1 '/' field).foldlM parseVariTok {}
+
+/-- a parsed attempt token: the upstream, its carrier (servers of a history are shared per carrier + certificate), and
+    the variation -/
+structure PAtt where
+  att : Attempt
+  carrier : String
+  scert : String
+  vari : Vari
+
+def parseAttempt (sreq : Bool) (sca : String) (tok : String) : Option PAtt := do
+  let (carrier, hostname, scert, vari) ←
+    (match splitOn1 ',' tok with
+     | [c, h, s] => some (c, h, s, ({} : Vari))
+     | [c, h, s, v] => (parseVari v).map (fun v => (c, h, s, v))
+     | _ => none)
+  if !(["pipe", "tcp", "tcp+tls", "stdin+tls", "wss"].contains carrier) then none
+  let (k, noHost) ← parseKind carrier
+  if !(("dead" :: "iponly" :: serverCertClasses).contains scert) then none
+  if !(caTokens.contains sca) then none
+  if noHost != (hostname == "-") then none
+  let (hostPart, special) ← decodeHostTok hostname
+  if special && noHost then none
+  if !special && (carrier == "tcp" || carrier == "tcp+tls" || carrier == "wss") && !(hostname == "localhost" || hostname == "127.0.0.1") then none
+  if !special && carrier == "pipe" && (hostname.isEmpty || hostname.toList.any (fun c => c == ':' || c == '/' || c == '[' || c == ']')) then none
+  let caSrc : Src := caSrcOf sca
+  let up := scert != "dead"
+  let so : Opts := leafSrc (if up then scert else "good") { ca := caSrc, flag := sreq }
+  let hostport : Name := if noHost then [] else stripUserinfo hostPart ++ ":4443".toList
+  pure { att := { kind := k, hostport := hostport, resolved := refResolve hostport, up := up, so := so },
+         carrier := carrier, scert := scert, vari := vari }
+
+/-- client options of a `tlshist` history / attempt -/
+def histOpts (ins : Bool) (cca ccert : String) : Opts :=
+  let co0 : Opts := { ca := caSrcOf cca, flag := ins }
+  if ccert = "none" then co0 else leafSrc ("c" ++ ccert) co0
+
+/-- the steps of a history: every attempt with the client options in force for it and the identity of the server
+    instance it reaches (`carrier/certificate/generation`; the generation of a carrier goes up with every `r`) -/
+def mkSteps (ins : Bool) (cca ccert : String) (newMgr : Bool) : List PAtt → List (String × Nat) → List Step
+  | [], _ => []
+  | p :: ps, gens =>
+    let g0 := ((gens.find? (fun e => e.1 == p.carrier)).map (·.2)).getD 0
+    let g := if p.vari.restart then g0 + 1 else g0
+    let gens' := (p.carrier, g) :: gens.filter (fun e => e.1 != p.carrier)
+    { co := histOpts (p.vari.ins.getD ins) (p.vari.cca.getD cca) (p.vari.ccert.getD ccert), newMgr := newMgr,
+      att := { p.att with inst := p.carrier ++ "/" ++ p.scert ++ "/" ++ toString g } } :: mkSteps ins cca ccert newMgr ps gens'
 
 def outcomeStr : Option Outcome → String
   | none => "skip:none:0"
@@ -883,16 +1020,18 @@ def handleTlshist (toks : List String) : String :=
   match toks with
   | mode :: ins :: cca :: ccert :: sreq :: sca :: atts =>
     let r : Option String := do
-      let failover ← (if mode = "list" then some true else if mode = "seq" then some false else none)
+      -- seq: one configuration object, changed in place between attempts; seqn: a configuration object per attempt
+      let (failover, newMgr) ← (if mode = "list" then some (true, false) else if mode = "seq" then some (false, false)
+        else if mode = "seqn" then some (false, true) else none)
       let ins ← parseBit ins
       let sreq ← parseBit sreq
       if !(clientCertClasses.contains ccert) then none
       if !(caTokens.contains cca) || !(caTokens.contains sca) then none
       if atts.isEmpty || atts.length > 6 then none
-      let as ← atts.mapM (parseAttempt sreq sca)
-      let co0 : Opts := { ca := caSrcOf cca, flag := ins }
-      let co : Opts := if ccert = "none" then co0 else leafSrc ("c" ++ ccert) co0
-      pure (" ".intercalate ((runHist refX509 genFacts SA.Gen.getTlsConfigFreshPerCall co failover as none).map outcomeStr))
+      let ps ← atts.mapM (parseAttempt sreq sca)
+      if failover && ps.any (·.vari.any) then none
+      pure (" ".intercalate ((runHist refX509 genFacts SA.Gen.getTlsConfigFreshPerCall failover
+        (mkSteps ins cca ccert newMgr ps []) none []).map outcomeStr))
     r.getD "bad-op"
   | _ => "bad-op"
 
